@@ -132,6 +132,10 @@ func VerifC09Methods() {
 	}
 	pe, ok := err.(*hackpadfs.PathError)
 	verifAssert(ok, "failure must be a *PathError")
+	if m == 4 || m == 6 {
+		// MkdirAll / RemoveAll may name an ancestor or descendant (natively: the regular file above the root)
+		return
+	}
 	verifObserveStr("path", pe.Path)
 	verifAssert(pe.Path == name, "PathError.Path must be the caller's FS-relative name")
 }
